@@ -1,6 +1,8 @@
 """C06 Dense output is continuous, matches the samples, and covers exactly the span."""
 import facts
 import aff
+import radau
+import C19
 
 LEVEL = "proof"
 
@@ -18,5 +20,8 @@ def run(rep, tier):
         if df is not None:
             aff.r_endpt(rep, ctx, m, t, df)
         aff.r_interp_h(rep, ctx, m, t)
+    radau.r_radau_dense(rep, f, rule="R-AFF-ENDPT")
+    rep.rule("R-SOLOUT-CONTIG", "segments abut: each interpolant covers exactly [xold, x] and xold is the previous x (all six solvers, all path variants)")
+    C19.init_contig_rules(rep, f)
     rep.explanation = "End-point identities of every step interpolant (explicit methods) at proof level; segment = step taken."
     rep.trusted_base = ["rustc nightly HIR/typeck", "driver/ivp-facts", "engine/symx.py"]
